@@ -83,7 +83,9 @@ GEN_EXTRACTORS = {
     "Routing": ("routing", [_G + "Routing.lean"]),
     "SaslPlainFmt": ("saslplain", [_G + "SaslPlainFmt.lean"]),
     "Schemas": ("schemas", [_G + "Schemas.lean", "go/internal/msgs/msgs_gen.go"]),
+    "SizeFns": ("sizefns", [_G + "SizeFns.lean"]),
     "WriterConsts": ("writer", [_G + "WriterConsts.lean"]),
+    "XerialFacts": ("xerialfacts", [_G + "XerialFacts.lean"]),
     "XerialReset": ("resetfields", [_G + "XerialReset.lean"]),
 }
 
